@@ -24,6 +24,13 @@ type Ctx struct {
 
 	REval, RCompile, RReg, RStr, RInit *Reach
 	reachCache                         map[string]*Reach
+	callers                            map[*ssa.Function][]ssa.CallInstruction
+	nonStatic                          map[*ssa.Function]bool
+	bmem                               *bndMem
+	bce                                []*bceResidual
+	bceErr                             error
+	bret                               map[bretKey][]bretFact
+	bretBusy                           map[bretKey]bool
 }
 
 type propDef struct {
@@ -204,6 +211,8 @@ func doDump(c *Ctx, what string) {
 		dumpWriteSites(c)
 	case what == "guards":
 		dumpGuardSites(c)
+	case what == "bnd":
+		dumpBND(c)
 	case what == "boxed":
 		for _, f := range c.G.Boxed {
 			fmt.Println("  in ", shortFn(f))
